@@ -49,6 +49,9 @@ PROPS = {
              "same", "user callbacks that mutate; more than one observer per event type (C08)"),
     "C19": P("Stats() after shape + one structural operation (plain: new/remove/copy/shrink of every entity; relation: 8 table scenarios incl. target death with swap-removed table lists, recycling, Shrink), with Stats called before / between or not at all: all absolute laws of the statement against the real tables and the model, and incremental == fresh (field-wise, every archetype and table)",
              "same", "component type name strings; more than 2 operations between Stats calls"),
+    "C11": P("isTrivial over a symbolic type descriptor of depth <= 1 (all 26 kinds at every node, structs of <= 3 fields, arrays): trivial implies pointer-free; registry flags of the harness types; I-zero (cells in rows >= len are zero, incl. pointer-bearing columns) and zero-on-add after RemoveEntity/Remove/New/batch Remove/Shrink steps; every raw (no write barrier) copy over a pointer-bearing cell is reported by the engine as memory-safety violation in ALL harnesses",
+             "depth 2 descriptors", "garbage collection running concurrently, finalizer-observed collectability (Go runtime not encodable): only the storage-level sufficient conditions are decided",
+             ["zero-length arrays of pointer types are treated as pointer-bearing (conservative)"]),
     "C10": P("every rejected call of the C01/C04 step harnesses (dead entity: never reused and recycled id; duplicate / already present / missing component; dead or recycled relation target; exchange of same component) must panic and leave model, INV and lock state unchanged",
              "same", "batch operations (lock state covered by C07); *Unchecked accessors; typed arities > 2"),
     "C05": P("registered Filter1/Filter2 with FULLY symbolic with/without masks and symbolic relation target (filter or per query) over both shapes: the cached walk/Count equals the model set (= uncached semantics); register/unregister bookkeeping",
